@@ -44,13 +44,13 @@ def listing(home):
 class KillPoints:
     """sys.monitoring tool: counts LINE or CALL/C_RETURN events in watched files, SIGKILLs itself at the k-th"""
 
-    def __init__(self, mode, at, yield_cfg=None):
+    def __init__(self, mode, at, yield_cfg=None, real_sleep=None):
         self.mode, self.at = mode, at
         self.count = 0
         self.active = False
         self.sig = []
         self.yield_cfg = yield_cfg
-        self.real_sleep = time.sleep
+        self.real_sleep = real_sleep or time.sleep
         if yield_cfg:
             import random
             self.rnd = random.Random(yield_cfg.get("seed", 0))
@@ -110,7 +110,7 @@ class KillPoints:
         ev = mon.events.LINE
         mon.register_callback(self.tool, mon.events.LINE, self.on_line)
         if self.mode == "call":
-            ev = ev | mon.events.CALL | mon.events.C_RETURN
+            ev = ev | mon.events.CALL        # C_RETURN callbacks are delivered whenever CALL is monitored
             mon.register_callback(self.tool, mon.events.CALL, self.on_call)
             mon.register_callback(self.tool, mon.events.C_RETURN, self.on_cret)
         mon.set_events(self.tool, ev)
@@ -167,7 +167,7 @@ def main(argv):
     kp = None
     kill = spec.get("kill")
     if kill or spec.get("yield"):
-        kp = KillPoints((kill or {}).get("events", "line"), (kill or {}).get("at"), spec.get("yield"))
+        kp = KillPoints((kill or {}).get("events", "line"), (kill or {}).get("at"), spec.get("yield"), real_sleep)
         kp.install()
 
     results = []
